@@ -433,7 +433,7 @@ class DbEngine(Engine):
 # --------------------------------------------------------------------- C19
 class C19Engine(DbEngine):
     pid = "C19"
-    RUNS = (120, 3000)
+    RUNS = (300, 6000)
     rule = ("per seed: first-time creation of the channel or usage database (alternating) with a crash image before and "
             "after every call into os/tempfile/shutil/sqlite3 and every statement of the schema script, then one "
             "execution per fault point with ENOSPC / disk-I/O-error injected there; plus generated pre-existing files "
@@ -604,7 +604,7 @@ class C19Engine(DbEngine):
 # --------------------------------------------------------------------- C20
 class C20Engine(DbEngine):
     pid = "C20"
-    RUNS = (160, 4000)
+    RUNS = (600, 20000)
     rule = ("per seed: a version-1 usage database with generated rows (0-50 per table, NULLs, large integers, unicode "
             "app ids, 0-2 status rows) is opened by the normal start-up; a crash image is taken before and after every "
             "call into os/shutil/sqlite3, in the middle of the backup copy and at every statement of the upgrade "
